@@ -274,6 +274,13 @@ func nonNegValue(v ssa.Value, seen map[ssa.Value]bool, depth int) bool {
 	case *ssa.Const:
 		k, ok := constInt(x)
 		return ok && k >= 0
+	case *ssa.Parameter:
+		return paramNonNegHook != nil && paramNonNegHook(x)
+	case *ssa.Extract:
+		if call, ok := x.Tuple.(*ssa.Call); ok {
+			return nonNegFuncIdx(call.Call.StaticCallee(), x.Index, depth+1)
+		}
+		return false
 	case *ssa.Convert:
 		if nonNegByType(x) {
 			return true
@@ -312,18 +319,25 @@ func nonNegValue(v ssa.Value, seen map[ssa.Value]bool, depth int) bool {
 	return false
 }
 
+// paramNonNegHook answers "is this integer parameter non-negative at every call site" (set by the checker context).
+var paramNonNegHook func(*ssa.Parameter) bool
+
 // nonNegFunc: every first return value of fn is non-negative by construction.
-func nonNegFunc(fn *ssa.Function, depth int) bool {
+func nonNegFunc(fn *ssa.Function, depth int) bool { return nonNegFuncIdx(fn, 0, depth) }
+
+func nonNegFuncIdx(fn *ssa.Function, idx int, depth int) bool {
 	if fn == nil || fn.Blocks == nil || depth > 6 {
 		return false
 	}
 	any := false
 	for _, b := range fn.Blocks {
 		for _, in := range b.Instrs {
-			if ret, ok := in.(*ssa.Return); ok && len(ret.Results) >= 1 {
+			if ret, ok := in.(*ssa.Return); ok && len(ret.Results) > idx {
 				any = true
-				if !nonNegValue(ret.Results[0], map[ssa.Value]bool{}, depth) {
-					return false
+				for _, v := range retResults(ret)[idx] {
+					if !nonNegValue(v, map[ssa.Value]bool{}, depth) {
+						return false
+					}
 				}
 			}
 		}
@@ -550,6 +564,26 @@ func (p *bprover) parityOf(n string, s *factSet, seen map[string]bool) (int, boo
 	}
 	seen[n] = true
 	v := p.vals[n]
+	if strings.HasPrefix(n, "len:") {
+		// len(S[k:]) has the parity of len(S) shifted by the constant k
+		if sl, ok := v.(*ssa.Slice); ok && sl.High == nil {
+			k := int64(0)
+			if sl.Low != nil {
+				kk, isK := constInt(sl.Low)
+				if !isK {
+					return 0, false
+				}
+				k = kk
+			}
+			base := p.lenOf(sl.X)
+			pb, ok := p.parityOf(base.n, s, seen)
+			if !ok || pb < 0 {
+				return 0, false
+			}
+			return (pb + int((((base.k-k)%2)+2)%2)) % 2, true
+		}
+		return 0, false
+	}
 	phi, ok := v.(*ssa.Phi)
 	if !ok {
 		return 0, false
@@ -744,6 +778,23 @@ type boundSite struct {
 }
 
 func (c *C) newProver(fn *ssa.Function) *bprover {
+	if paramNonNegHook == nil || c.hookOwner != c {
+		c.hookOwner = c
+		busy := map[*ssa.Parameter]bool{}
+		paramNonNegHook = func(prm *ssa.Parameter) bool {
+			if busy[prm] || prm.Parent() == nil {
+				return false
+			}
+			busy[prm] = true
+			defer delete(busy, prm)
+			for _, f := range c.callSitePre(prm.Parent()) {
+				if f.a == "0" && f.b == "v:"+prm.Name() && f.c <= 0 {
+					return true
+				}
+			}
+			return false
+		}
+	}
 	p := &bprover{c: c, fn: fn, vals: map[string]ssa.Value{}}
 	// dispatcher precondition: executors are called with len(cmd) >= 1
 	if _, isExec := c.Facts.ExecNames[fn]; isExec {
@@ -819,6 +870,88 @@ func (c *C) callSitePre(fn *ssa.Function) []dfact {
 				if all {
 					out = append(out, dfact{"0", "v:" + prm.Name(), 0})
 				}
+				// relational: this integer is a valid position in a slice/string parameter at every call site
+				for j, other := range fn.Params {
+					isSeq := false
+					if _, ok := other.Type().Underlying().(*types.Slice); ok {
+						isSeq = true
+					}
+					if bt, ok := other.Type().Underlying().(*types.Basic); ok && bt.Info()&types.IsString != 0 {
+						isSeq = true
+					}
+					if !isSeq || j == i {
+						continue
+					}
+					for _, slack := range []int64{-1, 0} { // idx < len, idx <= len
+						holds := true
+						for _, call := range sites {
+							if i >= len(call.Call.Args) || j >= len(call.Call.Args) {
+								holds = false
+								break
+							}
+							pc := c.newProver(call.Parent())
+							if !pc.ProveLE(pc.lin(call.Call.Args[i]), pc.lenOf(call.Call.Args[j]), slack, call) {
+								holds = false
+								break
+							}
+						}
+						if holds {
+							ln := lenNode(other)
+							out = append(out, dfact{"v:" + prm.Name(), ln, slack})
+							break
+						}
+					}
+				}
+				continue
+			}
+			// integer fields of a pointer-to-struct parameter read by the callee: non-negative / bounded at every call site
+			if pt, ok := prm.Type().Underlying().(*types.Pointer); ok {
+				if st, ok := pt.Elem().Underlying().(*types.Struct); ok {
+					for fi := 0; fi < st.NumFields(); fi++ {
+						if !isSignedInt(st.Field(fi).Type()) {
+							continue
+						}
+						first := firstFieldLoad(fn, prm, fi)
+						if first == nil {
+							continue
+						}
+						lower, upper := true, int64(1<<62)
+						for _, call := range sites {
+							if i >= len(call.Call.Args) {
+								lower = false
+								break
+							}
+							ld := dominatingFieldLoad(call, call.Call.Args[i], fi)
+							if ld == nil {
+								lower, upper = false, -1
+								break
+							}
+							pc := c.newProver(call.Parent())
+							if !pc.ProveLE(lt{"0", 0}, pc.lin(ld), 0, call) {
+								lower = false
+							}
+							got := int64(-1)
+							for _, k := range []int64{1 << 20, 1 << 29, 1 << 31} {
+								if pc.ProveLE(pc.lin(ld), lt{"0", 0}, k, call) {
+									got = k
+									break
+								}
+							}
+							if got < 0 {
+								upper = -1
+							} else if upper >= 0 && got > upper || upper == 1<<62 {
+								upper = got
+							}
+						}
+						node := "v:" + first.Name()
+						if lower {
+							out = append(out, dfact{"0", node, 0})
+						}
+						if upper > 0 && upper < 1<<62 {
+							out = append(out, dfact{node, "0", upper})
+						}
+					}
+				}
 				continue
 			}
 			if _, ok := prm.Type().Underlying().(*types.Slice); !ok {
@@ -892,6 +1025,23 @@ func (c *C) proveSite(p *bprover, in ssa.Instruction) (bool, string) {
 			return false, "lower bound: cannot show " + canon(idx) + " >= 0"
 		}
 		if !p.ProveLE(i, up, -1, in) {
+			// parallel slices: x and the slice the index ranges over are two results of one call that fills both in lockstep
+			if ex, ok := x.(*ssa.Extract); ok {
+				if call, ok := ex.Tuple.(*ssa.Call); ok && call.Referrers() != nil {
+					for _, r := range *call.Referrers() {
+						other, ok := r.(*ssa.Extract)
+						if !ok || other == ex {
+							continue
+						}
+						if _, isSl := other.Type().Underlying().(*types.Slice); !isSl {
+							continue
+						}
+						if p.ProveLE(i, p.lenOf(other), -1, in) && lockstepResults(call.Call.StaticCallee(), ex.Index, other.Index) {
+							return true, ""
+						}
+					}
+				}
+			}
 			return false, "upper bound: cannot show " + canon(idx) + " < len(" + canon(x) + ")"
 		}
 		return true, ""
@@ -1199,4 +1349,141 @@ func reaches(from, to, avoid *ssa.BasicBlock) bool {
 		return false
 	}
 	return dfs(from)
+}
+
+// firstFieldLoad: the first load of field fi of pointer parameter prm in fn that is reached from the entry without
+// any store to that field or call in between (the value the caller passed in).
+func firstFieldLoad(fn *ssa.Function, prm *ssa.Parameter, fi int) *ssa.UnOp {
+	var best *ssa.UnOp
+	for _, b := range fn.Blocks {
+		for _, in := range b.Instrs {
+			u, ok := in.(*ssa.UnOp)
+			if !ok || u.Op != token.MUL {
+				continue
+			}
+			fa, ok := u.X.(*ssa.FieldAddr)
+			if !ok || fa.X != ssa.Value(prm) || fa.Field != fi {
+				continue
+			}
+			if best == nil || b.Dominates(best.Block()) && (b != best.Block() || before(u, best)) {
+				best = u
+			}
+		}
+	}
+	if best == nil || len(fn.Blocks) == 0 || len(fn.Blocks[0].Instrs) == 0 {
+		return nil
+	}
+	entry := fn.Blocks[0].Instrs[0]
+	if entry != ssa.Instruction(best) && !clearBetween(entry, best, fieldNameOf(best)) {
+		return nil
+	}
+	return best
+}
+
+func fieldNameOf(u *ssa.UnOp) string {
+	if fa, ok := u.X.(*ssa.FieldAddr); ok {
+		return fieldName(fa)
+	}
+	return ""
+}
+
+// dominatingFieldLoad: a load of field fi of the struct pointed to by arg that dominates the call with no store to
+// that field or call in between.
+func dominatingFieldLoad(call *ssa.Call, arg ssa.Value, fi int) *ssa.UnOp {
+	fn := call.Parent()
+	var best *ssa.UnOp
+	for _, b := range fn.Blocks {
+		if !b.Dominates(call.Block()) {
+			continue
+		}
+		for _, in := range b.Instrs {
+			u, ok := in.(*ssa.UnOp)
+			if !ok || u.Op != token.MUL {
+				continue
+			}
+			fa, ok := u.X.(*ssa.FieldAddr)
+			if !ok || fa.Field != fi || canon(fa.X) != canon(arg) {
+				continue
+			}
+			if b == call.Block() && !before(u, call) {
+				continue
+			}
+			if clearBetween(u, call, fieldName(fa)) {
+				best = u
+			}
+		}
+	}
+	return best
+}
+
+// lockstepResults: results i and j of fn are slices that start empty and receive exactly one append each in the same
+// basic blocks (so they always have the same length).
+func lockstepResults(fn *ssa.Function, i, j int) bool {
+	if fn == nil || fn.Blocks == nil {
+		return false
+	}
+	appendBlocks := func(v ssa.Value) (map[*ssa.BasicBlock]int, bool) {
+		out := map[*ssa.BasicBlock]int{}
+		seen := map[ssa.Value]bool{}
+		ok := true
+		var walk func(v ssa.Value)
+		walk = func(v ssa.Value) {
+			if seen[v] {
+				return
+			}
+			seen[v] = true
+			switch x := v.(type) {
+			case *ssa.Phi:
+				for _, e := range x.Edges {
+					walk(e)
+				}
+			case *ssa.MakeSlice:
+				if k, isK := constInt(x.Len); !isK || k != 0 {
+					ok = false
+				}
+			case *ssa.Slice:
+				if al, isAl := x.X.(*ssa.Alloc); !isAl || al.Comment != "makeslice" {
+					ok = false
+				}
+			case *ssa.Call:
+				if ap, isAp := isAppend(x); isAp {
+					if elems, isLit := sliceLiteralElems(ap.Call.Args[1]); isLit {
+						out[x.Block()] += len(elems)
+					} else {
+						ok = false
+					}
+					walk(ap.Call.Args[0])
+					return
+				}
+				ok = false
+			default:
+				ok = false
+			}
+		}
+		walk(v)
+		return out, ok
+	}
+	for _, b := range fn.Blocks {
+		for _, in := range b.Instrs {
+			ret, isRet := in.(*ssa.Return)
+			if !isRet || len(ret.Results) <= i || len(ret.Results) <= j {
+				continue
+			}
+			rr := retResults(ret)
+			if len(rr[i]) != 1 || len(rr[j]) != 1 {
+				return false
+			}
+			a, okA := appendBlocks(rr[i][0])
+			bb, okB := appendBlocks(rr[j][0])
+			if !okA || !okB || len(a) != len(bb) {
+				return false
+			}
+			for blk, n := range a {
+				if bb[blk] != n {
+					return false
+				}
+			}
+		}
+	}
+	return true
 }
